@@ -35,6 +35,10 @@ def build(profile):
     """cargo re-fingerprints /repo's sources, so an edited tree is recompiled."""
     if profile in _built:
         return _built[profile]
+    if os.environ.get("JV_BINARY_OVERRIDE") and profile in ("debug", "release"):
+        # measurement aid (tools/coverage.sh): run the checks with a coverage-instrumented worker built elsewhere
+        _built[profile] = os.environ["JV_BINARY_OVERRIDE"]
+        return _built[profile]
     t0 = time.time()
     lock = os.path.join(HARNESS, "Cargo.lock")
     if not os.path.exists(lock):
